@@ -1,7 +1,9 @@
 package main
 
 import (
+	"fmt"
 	"go/token"
+	"strings"
 	"go/types"
 
 	"golang.org/x/tools/go/ssa"
@@ -121,6 +123,8 @@ func checkC07(c *Ctx) {
 			}
 		}
 	}
+
+	checkIndexReadTable(c)
 
 	// ---- (3)
 	fCache := l.Field("", "nodeDB", "fastNodeCache")
@@ -411,4 +415,141 @@ func okEdgeDominatesPhi(call *ssa.Call, x ssa.Instruction) bool {
 		}
 	}
 	return false
+}
+
+// checkIndexReadTable: when is an answer taken from the index, when is absence
+// concluded from it, and when does the read fall back to the tree walk.
+func checkIndexReadTable(c *Ctx) {
+	l := c.L
+	c.rule("TABLE-index-read", "indexed read: use / absence / fallback decided for every combination of guard inputs", 10)
+	for _, spec := range []struct {
+		name    string
+		verRole func(role string) bool
+	}{
+		{"*ImmutableTree.Get", func(r string) bool { return r == "version" }},
+		{"*MutableTree.GetVersioned", func(r string) bool { return r == "arg1" }},
+	} {
+		fn := l.Func("", spec.name)
+		if fn == nil {
+			c.anchorMissing("TABLE-index-read", spec.name)
+			continue
+		}
+		for _, skip := range []bool{true, false} {
+			for _, errNil := range []bool{true, false} {
+				for _, nodeNil := range []bool{true, false} {
+					for _, isLatest := range []bool{true, false} {
+						for _, fresh := range []bool{true, false} { // lastUpdatedAt <= version
+							if skip && (!errNil || nodeNil || isLatest || fresh) {
+								continue
+							}
+							if !errNil && (nodeNil || isLatest || fresh) {
+								continue
+							}
+							if nodeNil && fresh {
+								continue
+							}
+							if !nodeNil && isLatest {
+								continue
+							}
+							skip, errNil, nodeNil, isLatest, fresh := skip, errNil, nodeNil, isLatest, fresh
+							b2i := func(b bool) int {
+								if b {
+									return 1
+								}
+								return -1
+							}
+							env := &tableEnv{l: l, flag: map[string]int{"skipFastStorageUpgrade": b2i(skip), "versionExists()#0": 1, "IsFastCacheEnabled()#0": 1}, cmp: func(a, b string) (int, bool) { return 0, false }}
+							env.recv = fn.Params[0].Name()
+							env.isNil = func(role string) int {
+								switch {
+								case strings.HasPrefix(role, "GetFastNode(") && strings.HasSuffix(role, "#0"):
+									return b2i(nodeNil)
+								case strings.HasSuffix(role, "root"):
+									return -1
+								}
+								return 0
+							}
+							env.ints = func(v ssa.Value, role string) (int64, bool) {
+								switch {
+								case spec.verRole(role):
+									return 10, true
+								case strings.HasPrefix(role, "getCachedLatestVersion("):
+									if isLatest {
+										return 10, true
+									}
+									return 12, true
+								case strings.HasPrefix(role, "GetVersionLastUpdatedAt("):
+									if fresh {
+										return 9, true
+									}
+									return 11, true
+								}
+								return 0, false
+							}
+							w := &walker{vals: map[ssa.Value]int{}}
+							w.env = &walkEnv{evalAtom: func(w *walker, v ssa.Value) int {
+								// the error of GetFastNode is the only error that may be non-nil here
+								if bo, ok := v.(*ssa.BinOp); ok {
+									if vv, nn, isN := nilCond(bo); isN && isErrorType(vv.Type()) {
+										isNil := 1
+										if ex, ok := stripTrivial(w.resolve(vv)).(*ssa.Extract); ok {
+											if call, ok := ex.Tuple.(*ssa.Call); ok {
+												if f := staticCallee(&call.Call); f != nil && f.Name() == "GetFastNode" && !errNil {
+													isNil = -1
+												}
+											}
+										}
+										if nn == 0 {
+											return -isNil
+										}
+										return isNil
+									}
+								}
+								return env.atom(w, v)
+							}}
+							walked := false
+							w.onCall = func(w *walker, call *ssa.Call) {
+								if f := staticCallee(&call.Call); f != nil && (f.Name() == "get" || f.Name() == "GetImmutable") {
+									walked = true
+								}
+							}
+							ret, stuck := w.run(fn)
+							got := "stuck"
+							if ret != nil {
+								v := stripTrivial(w.resolve(retVal(ret, 0)))
+								switch {
+								case walked:
+									got = "tree-walk"
+								case isNilConst(v):
+									got = "absent"
+								default:
+									if call, ok := v.(*ssa.Call); ok {
+										if f := staticCallee(&call.Call); f != nil && f.Name() == "GetValue" {
+											got = "index-value"
+										}
+									}
+								}
+							} else if stuck != nil {
+								got = "stuck at " + l.ipos(stuck)
+							}
+							var want string
+							switch {
+							case skip, !errNil:
+								want = "tree-walk"
+							case nodeNil && isLatest:
+								want = "absent"
+							case nodeNil:
+								want = "tree-walk"
+							case fresh:
+								want = "index-value"
+							default:
+								want = "tree-walk"
+							}
+							c.decide("TABLE-index-read", fmt.Sprintf("%s: index off=%v, index read ok=%v, entry absent=%v, version is latest=%v, entry not newer than version=%v", strings.TrimPrefix(spec.name, "*"), skip, errNil, nodeNil, isLatest, fresh), l.pos(fn.Pos()), got == want, got, "answers from `"+got+"`, the staleness guard requires `"+want+"`")
+						}
+					}
+				}
+			}
+		}
+	}
 }
